@@ -43,7 +43,7 @@
 use vstd::prelude::*;
 use std::sync::Arc;
 //@dropped memory.rs: everything except the four *Copy::execute bodies; control.rs: everything except store_return_data (Call::execute / DelegateCall::execute, its two callers, are not under contract: they forward its error with `?` before pushing anything); every opcode's min_gas_cost / arg_count / as_text_code / as_byte
-//@dropped the other polled loops of C13 (VM::execute's main loop, TypeChecker::{lift, assign_vars, infer, unify}, unification::unify): VecDeque draining, HashSet iteration, dynamic dispatch - outside Verus' subset; bounded stand-in: witness driver c13
+//@dropped the other polled loops of C13 are not in this unit: VM::execute's main loop is unit vm_loop, TypeChecker::{lift, assign_vars, infer, unify} unit tc_loops, unification::unify unit unify
 //@dropped the real VM (src/vm/mod.rs: VecDeque<VMThread>, VMState, InstructionStream): VM::{instruction_pointer, stack_handle, state} are A-CALLEE contracts over a stand-in VM that holds the current thread's instruction pointer, stack and memory, the code length, the builder, the configuration and the watchdog; VM::{build, config} and VMState::memory_mut are extracted
 //@dropped WHAT is copied: ValueBuilder::{known_exec, symbolic_exec, symbolic}, Memory::store, SymbolicValue::constant_fold are contract-free A-CALLEE stand-ins (total, touch nothing but their receiver); the values written to memory are not under contract here
 //@dropped `VM::watchdog(&self) -> &DynWatchdog` and `Watchdog::should_stop(&self)` take shared references in the repository (the oracle's state is interior / external); the stand-ins take `&mut` so that the ghost poll counter can advance - the call text `vm.watchdog().should_stop()` is unchanged
